@@ -13,7 +13,9 @@ EXTENDS Render      \* ChildIter, SortBy; Tree: VisitPre, PreOrder ...
 
 (******************************** C10: dictionaries ************************)
 \* attriter: None / sorted by key / dropping private keys
-KeyRank(key) == CASE key = "_p" -> 0 [] key = "a" -> 1 [] key = "b" -> 2 [] key = "name" -> 3 [] OTHER -> 4   \* Python's str order of the pool
+\* Python's str order of the key pool: "_p" < "a" < "b" < "k1" < "k10" < "k11" < "k12" < "k2" < ... < "k9" < "name"
+KeyOrder == <<"_p", "a", "b", "k1", "k10", "k11", "k12", "k2", "k3", "k4", "k5", "k6", "k7", "k8", "k9", "name">>
+KeyRank(key) == IF InSeq(KeyOrder, key) THEN IndexOf(KeyOrder, key) ELSE Len(KeyOrder) + 1
 RECURSIVE InsPair(_, _)
 InsPair(x, s) == IF s = <<>> THEN <<x>> ELSE IF KeyRank(x[1]) < KeyRank(Head(s)[1]) THEN <<x>> \o s ELSE <<Head(s)>> \o InsPair(x, Tail(s))
 RECURSIVE SortPairs(_)
@@ -42,6 +44,15 @@ Imp(d, parentidx, acc) ==
   IN ImpKids(d.children, me, acc1)
 ImpKids(ds, me, acc) == IF ds = <<>> THEN acc ELSE ImpKids(Tail(ds), me, Imp(Head(ds), me, acc))
 Import(d) == Imp(d, 0, [p |-> <<>>, attrs |-> <<>>])           \* [p: parent array (0 = none), attrs: per node]
+\* the same dictionaries in flat form -- pre-order list of [lv, pairs, nk] (depth, attribute pairs, number of children).
+\* The judge receives observed dictionaries in this form: the JSON reader of the tool chain limits nesting to 255 levels.
+RECURSIVE FlatOf(_, _)
+FlatOf(d, lv) == <<[lv |-> lv, pairs |-> d.pairs, nk |-> Len(d.children)]>>
+                 \o Flat([i \in 1..Len(d.children) |-> FlatOf(d.children[i], lv + 1)])
+\* import of a flat dictionary: the parent of an entry is the nearest earlier entry one level up
+ImportFlat(f) == [p |-> [i \in 1..Len(f) |-> IF f[i].lv = 0 THEN 0
+                                             ELSE MaxOf({j \in 1..(i - 1) : f[j].lv = f[i].lv - 1})],
+                  attrs |-> [i \in 1..Len(f) |-> f[i].pairs]]
 ChOfArray(q) == [i \in 1..Len(q) |-> SelectSeq([j \in 1..Len(q) |-> j], LAMBDA j: q[j] = i)]
 
 DefaultOpts == [attriter |-> "none", ci |-> [kind |-> "list", hide |-> {}, key |-> <<>>], ml |-> NoMax]
